@@ -56,6 +56,27 @@ VARIANTS = [
     dict(name="sub-directory created without exist_ok", kind="break", file=U,
          old="                fname.parent.mkdir(parents=True, exist_ok=True)", new="                fname.parent.mkdir(parents=True)",
          expect=("C15-DIRS", "__setitem__")),
+    dict(name="temp in the system temp dir, moved with shutil.move", kind="break", file=U, old=WRITE,
+         new='''            import shutil, tempfile
+            with tempfile.NamedTemporaryFile(prefix=f"{fname.name}.tmp-", delete=False) as f:
+                pickle.dump(v, f)
+            shutil.move(f.name, fname)
+''', expect=("C15-ATOMIC", "__setitem__")),
+    dict(name="fixed temp name created exclusively", kind="break", file=U,
+         old='''            tmp = fname.with_name(
+                f"{fname.name}.tmp-{os.getpid()}-{threading.get_ident()}"
+            )
+            with open(tmp, "wb") as f:''',
+         new='''            tmp = fname.with_name(f"{fname.name}.tmp")
+            with open(tmp, "xb") as f:''', expect=("C15-ATOMIC", "__setitem__")),
+    dict(name="twin: tempfile next to the entry", kind="twin", file=U, old=WRITE,
+         new='''            import tempfile
+            fd, tmp = tempfile.mkstemp(dir=fname.parent, prefix=fname.name)
+            f = os.fdopen(fd, "wb")
+            pickle.dump(v, f)
+            f.close()
+            os.replace(tmp, fname)
+'''),
     dict(name="twin: Path.replace instead of os.replace", kind="twin", file=U,
          old="            os.replace(tmp, fname)\n", new="            tmp.replace(fname)\n"),
     dict(name="twin: temp name via with_suffix", kind="twin", file=U,
